@@ -22,9 +22,15 @@ def run(ctx):
     n, max_ops = (60, 5) if quick else (240, 10)
     rc, out = vlib.harness_run(['viewer', ctx['seed'], n, max_ops], timeout=900)
     if rc != 0: raise RuntimeError('harness viewer failed: ' + out[-2000:])
-    terms = []; trees = []
-    for chunk in out.split('@@CASE@@ V\n')[1:]:
-        term, js = chunk.split('\n@@JSON@@ ', 1); terms.append(term.strip()); trees.append(json.loads(js.strip()))
+    terms = []; trees = []; oracle_lines = []; pending = []
+    lines_out = out.split('\n'); i = 0
+    while i < len(lines_out):
+        l = lines_out[i]
+        if l.startswith('@@ORACLE@@ '): pending.append(l[len('@@ORACLE@@ '):])
+        elif l == '@@CASE@@ V':
+            terms.append(lines_out[i + 1].strip()); i += 1; oracle_lines.append(pending); pending = []
+        elif l.startswith('@@JSON@@ '): trees.append(json.loads(l[len('@@JSON@@ '):].strip()))
+        i += 1
     verd = vlib.run_shards('C18', IMPORTS, 'vcase', 'viewer_verdict', terms, per_shard=max(2, len(terms) // 16 + 1), timeout=1700)
     failures = []
     for t, tr, v in zip(terms, trees, verd):
@@ -32,9 +38,14 @@ def run(ctx):
             failures.append({'clause': 'scene_vs_model', 'key': 'viewermodel', 'verdict': {2: 'scene tree differs from the model of the history', 3: 'model panics, implementation returns', 4: 'implementation panics, model returns'}.get(v[0]),
                              'history': t[:2500]})
         failures += edge_oracle(tr, t)
+    for t, ol in zip(terms, oracle_lines):
+        for o in ol:
+            clause = o.split(' ', 1)[0]
+            failures.append({'clause': clause, 'key': clause, 'what': o, 'history': t[:2500],
+                             'how': 'replay the listed Viewer calls in order on Viewer::new(point radius, edge radius, segments) and inspect into_scad() after the named call'})
     return {'evaluations': len(terms), 'distinct_nontrivial': len(set(terms)), 'failures': failures, 'samples': [{'history': t[:400]} for t in terms[1:3]],
             'rule': 'harness `vh viewer`: random histories of 0..%d calls over all 13 add_* operations (points, point lists incl. empty, 2D/3D edge lists incl. empty, vertical up/down, horizontal, '
                     'tiny and oblique edges, quadratic/cubic curves, chains with optional close, bezier star), viewer segments 4..12, random colours; the final scene tree (incl. every edge cylinder mesh) '
-                    'must equal the Coq model run on the same history; every edge polyhedron is checked closed and consistently oriented' % max_ops, 'extra': {}}
+                    'must equal the Coq model run on the same history; every edge polyhedron is checked closed and consistently oriented; on the implementation alone: after every call the scene is a tree whose items are the items of the scene before the call, in order, plus new ones, and the item added by an edge call is one colour group with one cylinder per edge whose axis runs from the start to the end of the edge at the edge radius' % max_ops, 'extra': {}}
 def match_known(f, known): return vlib.match_known_default(f, known)
 def replay(path): print(json.dumps(json.load(open(path)), indent=1)[:4000]); return 0
